@@ -30,8 +30,79 @@ pub static mut AT_END: bool = false; // environment: the input is at its end
 pub static mut IO_FAILED: bool = false; // environment: the source failed
 pub static mut BLANKS_PENDING: bool = false; // environment: spaces/tabs in front of the cursor
 
+/// T3: the stubs read the ghost token queue filled by the real writer (flussab::verif_q); each
+/// stub then behaves as its T0 contract says the real token function does on the rendered text.
+pub static mut SCRIPT: bool = false;
+
 pub fn on() -> bool {
     unsafe { ON }
+}
+
+fn script() -> bool {
+    unsafe { SCRIPT }
+}
+
+pub fn reset_script() {
+    reset(0);
+    unsafe {
+        SCRIPT = true;
+        AT_END = false;
+        IO_FAILED = false;
+        BLANKS_PENDING = false;
+    }
+    flussab::verif_q::stop_capture();
+}
+
+mod s {
+    use flussab::verif_q as q;
+
+    pub fn is_blank_next() -> bool {
+        q::next_is_byte(b' ') || q::next_is_byte(b'\t')
+    }
+
+    /// end of word after the token at queue offset k: blank, CR, LF or end of input
+    pub fn end_of_word_at(k: usize) -> bool {
+        match q::peek_at(k) {
+            None => true,
+            Some(t) => t.kind == 0 && (t.mag == b' ' as u128 || t.mag == b'\t' as u128 || t.mag == b'\r' as u128 || t.mag == b'\n' as u128),
+        }
+    }
+
+    pub fn next_is_number() -> bool {
+        match q::peek() {
+            Some(t) => t.kind == 1 || (t.kind == 0 && t.mag >= b'0' as u128 && t.mag <= b'9' as u128),
+            None => false,
+        }
+    }
+
+    /// newline = LF | CRLF
+    pub fn take_newline() -> bool {
+        q::take_bytes(b"\n") || q::take_bytes(b"\r\n")
+    }
+}
+
+fn s_unit(ok: bool) -> Parsed<(), ParseError> {
+    if ok {
+        Res(Ok(()))
+    } else {
+        Fallthrough
+    }
+}
+
+/// contract of uint/int: a number word (digits, end of word) -> value if representable, then
+/// trailing blanks eaten; not a number word -> Fallthrough
+fn s_number(signed: bool) -> Option<(bool, u128)> {
+    use flussab::verif_q as q;
+    if !s::next_is_number() || !s::end_of_word_at(1) {
+        return None;
+    }
+    let (neg, mag) = q::take_num().unwrap();
+    if neg && !signed {
+        // (cannot happen for canonical text of an unsigned value)
+        return None;
+    }
+    q::skip_blanks();
+    Some((neg, mag))
 }
 
 pub fn reset(fuel: usize) {
@@ -49,6 +120,7 @@ pub fn reset(fuel: usize) {
         INT_OK = 0;
         INT_CALLS = 0;
         INT_UNMARKED = 0;
+        SCRIPT = false;
         AT_END = kani::any();
         IO_FAILED = kani::any();
         BLANKS_PENDING = kani::any();
@@ -106,24 +178,69 @@ fn opt_unit() -> Parsed<(), ParseError> {
 
 pub fn skip_whitespace(_input: &mut LineReader) {
     tick();
+    if script() {
+        flussab::verif_q::skip_blanks();
+        return;
+    }
     unsafe {
         BLANKS_PENDING = false;
     }
 }
 
 pub fn comment(_input: &mut LineReader) -> Parsed<(), ParseError> {
+    if script() {
+        tick();
+        // the writers never emit comment lines; one in the queue is outside the scripted model
+        if flussab::verif_q::next_is_byte(b'c') {
+            unsafe {
+                flussab::verif_q::UNSUPPORTED = true;
+            }
+        }
+        return Fallthrough;
+    }
     opt_unit()
 }
 
 pub fn newline(_input: &mut LineReader) -> Parsed<(), ParseError> {
+    if script() {
+        tick();
+        if s::take_newline() {
+            flussab::verif_q::skip_blanks();
+            return Res(Ok(()));
+        }
+        return Fallthrough;
+    }
     opt_unit()
 }
 
 pub fn word(_input: &mut LineReader, _fixed: &[u8]) -> Parsed<(), ParseError> {
+    if script() {
+        tick();
+        use flussab::verif_q as q;
+        let n = _fixed.len();
+        let mut i = 0;
+        while i < n {
+            match q::peek_at(i) {
+                Some(t) if t.kind == 0 && t.mag == _fixed[i] as u128 => {}
+                _ => return Fallthrough,
+            }
+            i += 1;
+        }
+        if n == 0 || !s::end_of_word_at(n) {
+            return Fallthrough;
+        }
+        q::take_bytes(_fixed);
+        q::skip_blanks();
+        return Res(Ok(()));
+    }
     opt_unit()
 }
 
 pub fn fixed(_input: &mut LineReader, _fixed: &[u8]) -> Parsed<(), ParseError> {
+    if script() {
+        tick();
+        return s_unit(!_fixed.is_empty() && flussab::verif_q::take_bytes(_fixed));
+    }
     opt_unit()
 }
 
@@ -137,6 +254,15 @@ pub fn interactive_skip_line(_input: &mut LineReader) -> Parsed<(), ParseError> 
 
 pub fn eof(_input: &mut LineReader) -> Parsed<(), ParseError> {
     tick();
+    if script() {
+        let ok = flussab::verif_q::len() == 0;
+        if ok {
+            unsafe {
+                EOF_OK += 1;
+            }
+        }
+        return s_unit(ok);
+    }
     unsafe {
         // contract (eof_token harness): succeeds iff at the end of a source that did not fail
         if AT_END && !IO_FAILED && !BLANKS_PENDING {
@@ -150,6 +276,16 @@ pub fn eof(_input: &mut LineReader) -> Parsed<(), ParseError> {
 
 pub fn interactive_end_of_line(_input: &mut LineReader) -> Parsed<(), ParseError> {
     tick();
+    if script() {
+        // interactive_newline (no blanks eaten) or a clean end
+        let ok = s::take_newline() || flussab::verif_q::len() == 0;
+        if ok {
+            unsafe {
+                TERMINATOR_OK += 1;
+            }
+        }
+        return s_unit(ok);
+    }
     unsafe {
         let ok = if AT_END { !IO_FAILED && !BLANKS_PENDING } else { consume() };
         if ok {
@@ -163,11 +299,37 @@ pub fn interactive_end_of_line(_input: &mut LineReader) -> Parsed<(), ParseError
 
 pub fn non_terminating_linebreaks(_input: &mut LineReader) -> Result<bool, ParseError> {
     tick();
+    if script() {
+        // newline (then blanks); the writers never continue a clause on the next line, further
+        // blank or comment lines are outside the scripted model
+        if !s::take_newline() {
+            return Ok(false);
+        }
+        flussab::verif_q::skip_blanks();
+        if flussab::verif_q::next_is_byte(b'c') || flussab::verif_q::next_is_byte(b'\n') || flussab::verif_q::next_is_byte(b'\r') {
+            unsafe {
+                flussab::verif_q::UNSUPPORTED = true;
+            }
+        }
+        return Ok(true);
+    }
     Ok(consume())
 }
 
 pub fn var_count<L: Dimacs>(_input: &mut LineReader) -> Parsed<usize, ParseError> {
     tick();
+    if script() {
+        return match s_number(false) {
+            None => Fallthrough,
+            Some((_, mag)) if mag <= L::MAX_DIMACS as u128 => {
+                unsafe {
+                    VC_RET = mag as usize;
+                }
+                Res(Ok(mag as usize))
+            }
+            Some(_) => Res(Err(any_err())),
+        };
+    }
     let k: u8 = kani::any();
     if k == 0 || !consume() {
         return Fallthrough;
@@ -185,6 +347,15 @@ pub fn var_count<L: Dimacs>(_input: &mut LineReader) -> Parsed<usize, ParseError
 
 pub fn uint_count<T: FromPrimitive>(_input: &mut LineReader, _what: &str) -> Parsed<T, ParseError> {
     tick();
+    if script() {
+        return match s_number(false) {
+            None => Fallthrough,
+            Some((_, mag)) => match T::from_u128(mag) {
+                Some(t) => Res(Ok(t)),
+                None => Res(Err(any_err())),
+            },
+        };
+    }
     let k: u8 = kani::any();
     if k == 0 || !consume() {
         return Fallthrough;
@@ -206,6 +377,33 @@ pub fn uint_count<T: FromPrimitive>(_input: &mut LineReader, _what: &str) -> Par
 
 pub fn clause_group(_input: &mut LineReader, limit: usize, _hard: bool) -> Parsed<usize, ParseError> {
     tick();
+    if script() {
+        // "{" digits "}" then blanks; accepted iff <= limit (clause_group_limit)
+        use flussab::verif_q as q;
+        if !q::next_is_byte(b'{') {
+            return Fallthrough;
+        }
+        let num_ok = match q::peek_at(1) {
+            Some(t) => t.kind == 1 && !t.neg,
+            None => false,
+        };
+        let close_ok = match q::peek_at(2) {
+            Some(t) => t.kind == 0 && t.mag == b'}' as u128,
+            None => false,
+        };
+        if !num_ok || !close_ok {
+            return Fallthrough;
+        }
+        let mag = q::peek_at(1).unwrap().mag;
+        q::pop();
+        q::pop();
+        q::pop();
+        q::skip_blanks();
+        if mag <= limit as u128 {
+            return Res(Ok(mag as usize));
+        }
+        return Res(Err(any_err()));
+    }
     let k: u8 = kani::any();
     if k == 0 || !consume() {
         return Fallthrough;
@@ -261,6 +459,18 @@ pub fn clause_lits<L: Dimacs>(
 
 pub fn int<T: FromPrimitive>(_input: &mut LineReader) -> Parsed<T, String> {
     tick();
+    if script() {
+        return match s_number(true) {
+            None => Fallthrough,
+            Some((neg, mag)) => {
+                let t = if mag > i128::MAX as u128 { None } else { T::from_i128(if neg { -(mag as i128) } else { mag as i128 }) };
+                match t {
+                    Some(t) => Res(Ok(t)),
+                    None => Res(Err(String::new())),
+                }
+            }
+        };
+    }
     unsafe {
         INT_CALLS += 1;
         if _input.reader.mark() != _input.reader.position() {
